@@ -1170,6 +1170,13 @@ def mk_call(fn, args=(), kwargs=()):
         if xa is not None and (xa.kind == 'seq' or (xa.kind == 'call' and xa.args[0] in (
                 'zeros', 'ones', 'empty', 'full', 'array', 'copy', 'astype', 'reshape', 'concatenate'))):
             return args[0]          # np.array(ndarray) has the same value
+    if fn == 'astype' and len(args) == 1 and len(kwargs) == 1 and kwargs[0][0] == 'dtype' and args[0].const() is not None:
+        da_ = kwargs[0][1].single_atom()
+        dn_ = str(da_.args[0]) if da_ is not None and da_.kind in ('builtin', 'ext') else ''
+        if 'int' in dn_:
+            return Term.num(math.trunc(args[0].const()))
+        if 'float' in dn_:
+            return args[0]
     if fn == 'astype' and len(args) == 1 and len(kwargs) == 1 and kwargs[0][0] == 'dtype':
         xa = args[0].single_atom()
         if xa is not None and xa.kind == 'call' and xa.args[0] in ('zeros', 'ones', 'full', 'empty', 'astype'):
@@ -1404,7 +1411,8 @@ def mk_sub(base, idx):
     if idx.key == FULL_SLICE_KEY:
         return base                 # x[:] has the same value as x
     ia_ = idx.single_atom()
-    if ia_ is not None and ia_.kind == 'idx' and (base.single_atom() is None or base.single_atom().kind == 'call'):
+    if ((ia_ is not None and ia_.kind == 'idx') or (idx.const() is not None and idx.const() >= 0 and idx.const().denominator == 1)) \
+            and (base.single_atom() is None or base.single_atom().kind == 'call'):
         it_ = _item_of_elementwise(base, idx)
         if it_ is not None:
             return it_
